@@ -216,6 +216,65 @@ def variant_cases(ck, T, mir, pairs):
     return cases
 
 
+def matrix_cases(T, mir):
+    """fixed cases, independent of the random stream, run before the random ones.
+    (a) every (parent, child type) with >= 2 candidate members (from the tables): {each candidate as hint} x {slot free,
+        occupied} x {force False, True} (list members: equal child absent / present x force), and hint in {None, wrong, ""} x force;
+    (b) for the first pairs with a unique single-valued / a unique list member: hint in {the member, None, wrong, ""} x force x
+        {free, occupied} resp. {equal absent, present} -- all inside one history per parent, so after earlier adds."""
+    cases = []
+
+    def call(tree, hint, force, mark):
+        return {"child": {"kind": "obj", "tree": tree}, "hint": hint, "force": force, "validate": False, "mark": mark}
+
+    def two_children(c):
+        base, variants = one_member_variants(T, c)
+        other = variants[0][1] if variants else {"cls": c, "kw": []}
+        return base, other
+
+    def cells(member, container, hint, a, b):
+        """the full slot x force matrix for one member, as two histories (unforced first / forced first)"""
+        if not container:
+            h1 = [call(a, hint, False, "matrix:free,unforced"), call(b, hint, False, "matrix:occupied,unforced"),
+                  call(b, hint, True, "matrix:occupied,forced"), call(a, hint, False, "matrix:occupied,unforced")]
+            h2 = [call(a, hint, True, "matrix:free,forced"), call(b, hint, True, "matrix:occupied,forced")]
+        else:
+            h1 = [call(a, hint, False, "matrix:absent,unforced"), call(a, hint, False, "matrix:equal-present,unforced"),
+                  call(a, hint, True, "matrix:equal-present,forced"), call(b, hint, False, "matrix:absent,unforced")]
+            h2 = [call(a, hint, True, "matrix:absent,forced"), call(b, hint, True, "matrix:absent,forced"),
+                  call(b, hint, False, "matrix:equal-present,unforced")]
+        return [h1, h2]
+
+    several, single, lists = [], [], []
+    for p in mir.order:
+        by = {}
+        for m in mir.members(p):
+            if mir.dt(m) in T.C:
+                by.setdefault(mir.dt(m), []).append(m)
+        for c, ms in sorted(by.items()):
+            if len(ms) >= 2:
+                several.append((p, c, ms))
+            elif ms[0]["container"]:
+                lists.append((p, c, ms[0]))
+            else:
+                single.append((p, c, ms[0]))
+    for p, c, ms in several:
+        a, b = two_children(c)
+        for m in ms:
+            for h in cells(m["name"], m["container"], m["name"], a, b):
+                cases.append({"enabled": False, "parent": {"cls": p, "kw": []}, "calls": h})
+        bad = [call(a, h, f, "matrix:no-unique-member") for h in (None, WRONG, "", ms[0]["name"][:-1]) for f in (False, True)]
+        # the refusals also after a successful add (state must survive them)
+        cases.append({"enabled": False, "parent": {"cls": p, "kw": []},
+                      "calls": bad[:4] + [call(a, ms[0]["name"], False, "matrix:free,unforced")] + bad[4:]})
+    for p, c, m in single[:3] + lists[:3] + [x for x in lists if x[0] in ("NeuroMLDocument", "Network")][:2]:
+        a, b = two_children(c)
+        for hint in (m["name"], None, WRONG, ""):     # a unique member is chosen whatever the hint
+            for h in cells(m["name"], m["container"], hint, a, b):
+                cases.append({"enabled": False, "parent": {"cls": p, "kw": []}, "calls": h})
+    return cases
+
+
 STORED = [
     # the witnesses of the known defects, re-run first on every run
     {"enabled": True, "parent": {"cls": "GateHHRates", "kw": [["id", {"s": "g"}], ["instances", {"i": 1}]]},
@@ -332,6 +391,9 @@ def predicate(ck, sv, mir, case, res, enabled):
                          "changed": r["changed"]} if S and len(ck.samples) < 5 else None)
         ck.tally("call:%s:%s" % ("no-member" if not S else ("unique" if len(S) == 1 else "several"),
                                  "raises" if code not in (0, 20) else "returns"))
+        if call.get("mark", "").startswith("matrix:"):
+            ck.tally("%s:%s:hint=%s" % (call["mark"], "unique" if len(S) == 1 else "several" if S else "none",
+                                        "candidate" if hint in S else repr(hint) if hint in (None, "") else "wrong"))
         if factory_failed:
             continue   # the child was never made (C09's business); the parent is unchanged, checked above by `changed`
         if not S or (len(S) >= 2 and (not hint or hint not in S)):
@@ -520,6 +582,10 @@ def run(ck):
     rng = ck.rng
     thorough = ck.tier == "thorough"
     cases = [json.loads(json.dumps(c)) for c in STORED]
+    fixed_matrix = matrix_cases(T, mir)
+    cases.extend(fixed_matrix)
+    ck.extra["fixed_matrix_histories"] = len(fixed_matrix)
+    ck.extra["fixed_matrix_calls"] = sum(len(c_["calls"]) for c_ in fixed_matrix)
     classes = list(T.order)
     must = ["GateHHRates", "Segment", "ComponentType", "NeuroMLDocument", "Network", "Cell", "Annotation", "IonChannel", "Path"]
     parents = classes if thorough else must + rng.sample([c for c in classes if c not in must], ck.n(36, 0))
